@@ -68,7 +68,11 @@ def build(rng, site, nm, strict):
     cand = {"body": ["context", "page", "assign", "loop", "module", "import"], "control": ["context", "page", "assign", "loop", "module", "import"],
             "attr": ["context", "page", "assign", "module", "import"], "anon": ["context", "page", "assign", "module", "import"],
             "callbody": ["context", "page", "assign", "module", "import"], "topdef": ["context", "page", "assign", "arg", "module", "loop"], "topdef-in-callbody": ["context", "page", "assign", "arg", "module"],
-            "nested": ["context", "arg", "encl", "oarg", "module"], "filter": ["context", "module"]}[site]
+            "nested": ["context", "arg", "encl", "oarg", "module"], "filter": ["context", "module"],
+            # expressions of tag attributes that are evaluated where the tag stands: the default of an (ordinary or keyword-only)
+            # parameter of a nested def, the default of an argument of a call's body; and a def written inside a <%namespace> tag
+            "nested-default": ["context", "module", "encl", "oarg"], "nested-kwdefault": ["context", "module", "encl", "oarg"],
+            "callargs-default": ["context", "page", "assign", "module"], "nsdef": ["context", "module"]}[site]
     for b in cand:
         if rng.random() < 0.45:
             binds.add(b)
@@ -142,6 +146,33 @@ def build(rng, site, nm, strict):
         if oarg:
             locals_.append("oarg")
         read = "${outer(%s)}" % ("'oarg'" if oarg else "")
+    elif site in ("nested-default", "nested-kwdefault"):
+        oarg, encl = "oarg" in binds, "encl" in binds
+        sig = ("p=mk(%s)" if site == "nested-default" else "*, p=mk(%s)") % nm
+        # the nested def's own name sorts before and after the name read (the hoisted lines are written in sorted order)
+        inner_name = rng.choice(["aa_inner", "zz_inner"])
+        body = ("<%% %s = 'encl' %%>" % nm if encl else "") + '<%%def name="%s(%s)">${p}</%%def>${%s()}' % (inner_name, sig, inner_name)
+        head.append('<%%def name="outer(%s)">%s</%%def>' % (nm if oarg else "", body))
+        if encl:
+            locals_.append("encl")
+        if oarg:
+            locals_.append("oarg")
+        if encl:
+            # a def is written at the top of the enclosing function, before the assignment runs: Python's own rule makes the
+            # default unbound there; only the cases without an enclosing assignment are judged
+            binds.add("skip")
+        read = "${outer(%s)}" % ("'oarg'" if oarg else "")
+    elif site == "callargs-default":
+        if "page" in binds:
+            locals_.insert(0, "page")
+        if "assign" in binds:
+            pre.append("<%% %s = 'assign' %%>" % nm)
+            locals_.insert(0, "assign")
+        head.append('<%def name="wrap()">${caller.body()}</%def>')
+        read = '<%%call expr="wrap()" args="p=mk(%s)">${p}</%%call>' % nm
+    elif site == "nsdef":
+        head.append('<%%namespace name="inl"><%%def name="x()">%s</%%def></%%namespace>' % R)
+        read = "${inl.x()}"
     elif site == "filter":
         # the name is used as a filter: its value must be callable
         if "context" in binds:
@@ -163,7 +194,8 @@ def run(ctx):
     from mako.template import Template
     disagreements = []
     req, got = [], []
-    SITES = ["body", "control", "attr", "anon", "callbody", "topdef", "topdef-in-callbody", "nested", "filter"]
+    SITES = ["body", "control", "attr", "anon", "callbody", "topdef", "topdef-in-callbody", "nested", "filter",
+             "nested-default", "nested-kwdefault", "callargs-default", "nsdef"]
     per_cell = 12 if tier == "quick" else 2000
     cells = 0
     for site in SITES:
@@ -171,6 +203,8 @@ def run(ctx):
             for strict in (False, True):
                 for _ in range(per_cell):
                     files, kwargs, layers = build(rng, site, nm, strict)
+                    if "skip" in layers["binds"]:
+                        continue
                     cells += 1
                     ctx.evaluations += 1
                     ctx.nontrivial.add((files["/main.html"], tuple(sorted(kwargs)), strict))
@@ -337,7 +371,8 @@ def run(ctx):
     from mako import codegen
     for name in sorted(codegen.RESERVED_NAMES) + ["ordinary", "self", "caller"]:
         for enable_loop in (True, False):
-            for entry in ["render", "render_unicode", "render_context", "get_def", "assign", "assign-in-def", "for-target"] + sorted(NESTED_ASSIGN):
+            for entry in ["render", "render_unicode", "render_context", "render_context-kwargs", "include-args", "include_file-kwargs", "get_def", "assign", "assign-in-def",
+                          "for-target"] + sorted(NESTED_ASSIGN):
                 ctx.evaluations += 1
                 ctx.nontrivial.add((name, enable_loop, entry))
                 try:
@@ -346,6 +381,19 @@ def run(ctx):
                     elif entry == "render_context":
                         t = Template("x", enable_loop=enable_loop)
                         t.render_context(Context(util.FastEncodingBuffer(), **{name: 1}))
+                    elif entry == "render_context-kwargs":
+                        # the keyword arguments of render_context are handed to the body like those of render
+                        if name == "context":
+                            raise exceptions.NameConflictError("(positional parameter of the call itself)")
+                        Template("x", enable_loop=enable_loop).render_context(Context(util.FastEncodingBuffer()), **{name: 1})
+                    elif entry in ("include-args", "include_file-kwargs"):
+                        if name == "context" and entry == "include_file-kwargs":
+                            raise exceptions.NameConflictError("(not expressible)")
+                        lk_ = TemplateLookup(enable_loop=enable_loop)
+                        lk_.put_string("/inc.html", "i")
+                        lk_.put_string("/m.html", ('<%%include file="/inc.html" args="%s=1"/>' % name) if entry == "include-args"
+                                       else ('<%%namespace name="n_" file="/inc.html"/><%% n_.include_file("/inc.html", **{%r: 1}) %%>' % name))
+                        lk_.get_template("/m.html").render()
                     elif entry == "get_def":
                         Template('<%def name="d()">y</%def>', enable_loop=enable_loop).get_def("d").render(**{name: 1})
                     elif entry == "assign":
